@@ -133,6 +133,17 @@ def run(ctx):
             safe_markers(rng, base)
             if b % 3 == 0 and len(base['Q']) > 2:
                 base['Q'][2] = [0] * len(base['qgenes'])        # a cell that is constant on every marker set
+            if b % 3 == 0:
+                # a root marker that no reference profile expresses and only the first cell does: it still counts in every
+                # other cell's correlation, whoever shares the batch with it
+                cand = [g for g in base['markers']['0/0'] if g in base['qgenes'] and g <= base['G']]
+                if len(cand) >= 3:
+                    g0 = rng.choice(cand)
+                    for lf in base['means']:
+                        base['means'][lf][g0 - 1] = 0
+                    col = base['qgenes'].index(g0)
+                    for r, row in enumerate(base['Q']):
+                        row[col] = 7 if r == 0 or (r == 1 and len(base['Q']) > 2) else 0
             mode = b % 3
             if mode == 2 and len(base['cells']) < 4:
                 extra = 4 - len(base['cells'])
@@ -144,6 +155,13 @@ def run(ctx):
                 base['Q'] = [[rng.randint(0, 40) for _ in base['qgenes']] for _ in base['cells']]
                 if len(base['Q']) > 2:
                     base['Q'][1] = list(base['Q'][0])
+                if b % 6 == 1:
+                    # cells without a single count, in the middle and at the end: their row of the normalised chunk is
+                    # determined by the cell alone, whatever chunk it falls into
+                    base['Q'][1] = list(base['Q'][0])
+                    pos = rng.randint(2, len(base['cells']))
+                    base['cells'] = base['cells'][:pos] + [60] + base['cells'][pos:] + [61]
+                    base['Q'] = base['Q'][:pos] + [[0] * len(base['qgenes'])] + base['Q'][pos:] + [[0] * len(base['qgenes'])]
             elif mode == 2:
                 # non-integer profiles incl. a nearly constant cell next to high-variance ones
                 usable = [g for g in base['qgenes'] if g <= base['G']]
